@@ -62,6 +62,21 @@ CHECKS = {
                 "'settled' reading documented in DESIGN.md. No axioms.",
         "technique": "Coq proof (invariant by induction over histories, loop covering lemma, refinement of client roster fold) + differential correspondence over wire-mode histories",
     },
+    "C14": {
+        "text": "Theorems (Props/C14.v): for ANY number of writers and ANY interleaving of their atomic Write calls the received chunk sequence is a "
+                "permutation of the written chunks; since sendTransaction (as repaired) issues ONE Write per transaction, every interleaving is "
+                "a concatenation of whole well-formed transactions and the receiver's framing (reference decoder, trusting every prefix) recovers "
+                "exactly a permutation of the transactions sent; replies carry the reply flag, the request's ID and the requester as recipient; "
+                "every handler constructs at most one reply on any path (bound computed by the translator over the handlers' ASTs, regenerated "
+                "each run); the pinned chunked sender is refuted by a computed torn stream. Tie: a recording connection logs the Write calls of "
+                "the real sendTransaction for sizes around 32 KiB and up to 64 KiB; load runs (3-6 clients firing 10-35 requests back to back: "
+                "keep-alives, user lists, 40-58 KB board replies, chat broadcasts, unknown types) through the real connection loop and the "
+                "PRODUCTION outbox (goroutine per transaction): every client's raw bytes are re-framed by the reference decoder and a "
+                "request-ID ledger is checked (search, not proof).",
+        "note": "PARTIAL on scheduling: which interleavings the Go runtime produces, kernel buffering and partial-write errors are not modelled; "
+                "atomicity of one Write is assumed. Trusted: translator (reply bound), Coq kernel. No axioms.",
+        "technique": "Coq proof (all interleavings of atomic writes; framing of concatenated transactions) + translator-generated reply bound + recorded-Write correspondence and load search",
+    },
     "C15": {
         "text": "Theorems (Props/C15.v) over a std++ gmap model of YAMLAccountManager and the four account handlers: the invariant "
                 "disk = mask <$> mem (same logins, names, hashes; privileges = the 40 named bits), keys = logins, 8-byte bitmaps is preserved by "
